@@ -1,19 +1,1486 @@
-//! C14 reader-API simulation (placeholder, filled in below).
-use crate::trace::Trace;
+//! C14: op-sequence simulation of the binary reader against a reference cursor.
+//!
+//! A program is a byte buffer, a cut point (the window handed to the library is
+//! `buffer[..cut]`; the bytes after it are poison, or absent in exact-allocation mode) and a
+//! list of reader operations over a pool of live scopes, contexts and arrays. After every
+//! operation the library's outcome is compared with a ~200-line safe reference model
+//! (`slice::get`, `from_be_bytes`, checked arithmetic).
+
+use std::cmp::Ordering;
+use std::collections::BTreeSet;
 use std::io::Write;
 
-pub fn replay(_trace: &Trace, _verbose: bool) -> i32 {
-    2
+use serde::{Deserialize, Serialize};
+use serde_json::json;
+
+use allsorts::binary::read::{
+    CheckIndex, ReadArray, ReadArrayCow, ReadBinaryDep, ReadBuf, ReadCtxt, ReadFixedSizeDep,
+    ReadFrom, ReadScope, ReadUnchecked,
+};
+use allsorts::binary::{I16Be, I32Be, I64Be, U16Be, U24Be, U32Be, U64Be, I8, U8};
+use allsorts::error::ParseError;
+use allsorts::tables::{F2Dot14, Fixed, LongHorMetric};
+
+use crate::rng::{run_seed, Fnv, Rng};
+use crate::util::guard;
+
+#[derive(Serialize, Deserialize, Clone, Copy, Debug, PartialEq, Eq, PartialOrd, Ord)]
+pub enum Ty {
+    U8,
+    I8,
+    U16,
+    I16,
+    U24,
+    U32,
+    I32,
+    U64,
+    I64,
+    Pair,
+    Triple,
+    Quad,
+    F2Dot14,
+    Fixed,
+    Lhm,
+    Own,
+}
+
+const ALL_TY: &[Ty] = &[
+    Ty::U8,
+    Ty::I8,
+    Ty::U16,
+    Ty::I16,
+    Ty::U24,
+    Ty::U32,
+    Ty::I32,
+    Ty::U64,
+    Ty::I64,
+    Ty::Pair,
+    Ty::Triple,
+    Ty::Quad,
+    Ty::F2Dot14,
+    Ty::Fixed,
+    Ty::Lhm,
+    Ty::Own,
+];
+
+/// The harness' own `ReadFrom` struct: a U24Be followed by an I8.
+#[derive(Clone, Copy, Debug)]
+pub struct OwnRec {
+    a: u32,
+    b: i8,
+}
+impl ReadFrom for OwnRec {
+    type ReadType = (U24Be, I8);
+    fn read_from((a, b): (u32, i8)) -> Self {
+        OwnRec { a, b }
+    }
+}
+
+/// The harness' own `ReadFixedSizeDep` type: `k` bytes read through the checked API.
+pub struct DepRec;
+impl ReadBinaryDep for DepRec {
+    type Args<'a> = usize;
+    type HostType<'a> = u64;
+    fn read_dep<'a>(ctxt: &mut ReadCtxt<'a>, k: usize) -> Result<u64, ParseError> {
+        let mut v = 0u64;
+        for _ in 0..k {
+            v = (v << 8) | u64::from(ctxt.read_u8()?);
+        }
+        Ok(v)
+    }
+}
+impl ReadFixedSizeDep for DepRec {
+    fn size(k: usize) -> usize {
+        k
+    }
+}
+
+impl Ty {
+    /// Component (width, signed) list.
+    fn comps(self) -> &'static [(usize, bool)] {
+        match self {
+            Ty::U8 => &[(1, false)],
+            Ty::I8 => &[(1, true)],
+            Ty::U16 => &[(2, false)],
+            Ty::I16 | Ty::F2Dot14 => &[(2, true)],
+            Ty::U24 => &[(3, false)],
+            Ty::U32 => &[(4, false)],
+            Ty::I32 | Ty::Fixed => &[(4, true)],
+            Ty::U64 => &[(8, false)],
+            Ty::I64 => &[(8, true)],
+            Ty::Pair => &[(2, false), (2, false)],
+            Ty::Triple => &[(1, false), (2, false), (4, false)],
+            Ty::Quad => &[(1, false), (1, true), (2, true), (3, false)],
+            Ty::Lhm => &[(2, false), (2, true)],
+            Ty::Own => &[(3, false), (1, true)],
+        }
+    }
+    fn size(self) -> usize {
+        self.comps().iter().map(|c| c.0).sum()
+    }
+}
+
+/// Model decode: big-endian components at the start of `b` (caller guarantees the length).
+fn decode(ty: Ty, b: &[u8]) -> String {
+    let mut parts = Vec::new();
+    let mut p = 0;
+    for &(w, signed) in ty.comps() {
+        let mut raw = [0u8; 8];
+        raw[8 - w..].copy_from_slice(&b[p..p + w]);
+        let u = u64::from_be_bytes(raw);
+        p += w;
+        if signed {
+            let shift = 64 - 8 * w as u32;
+            parts.push(format!("{}", ((u << shift) as i64) >> shift));
+        } else {
+            parts.push(format!("{}", u));
+        }
+    }
+    if parts.len() == 1 {
+        parts.pop().unwrap()
+    } else {
+        format!("({})", parts.join(", "))
+    }
+}
+
+trait Canon {
+    fn canon(&self) -> String;
+}
+macro_rules! canon_int {
+    ($($t:ty),*) => {$(impl Canon for $t { fn canon(&self) -> String { format!("{}", self) } })*};
+}
+canon_int!(u8, i8, u16, i16, u32, i32, u64, i64);
+impl<A: Canon, B: Canon> Canon for (A, B) {
+    fn canon(&self) -> String {
+        format!("({}, {})", self.0.canon(), self.1.canon())
+    }
+}
+impl<A: Canon, B: Canon, C: Canon> Canon for (A, B, C) {
+    fn canon(&self) -> String {
+        format!("({}, {}, {})", self.0.canon(), self.1.canon(), self.2.canon())
+    }
+}
+impl<A: Canon, B: Canon, C: Canon, D: Canon> Canon for (A, B, C, D) {
+    fn canon(&self) -> String {
+        format!(
+            "({}, {}, {}, {})",
+            self.0.canon(),
+            self.1.canon(),
+            self.2.canon(),
+            self.3.canon()
+        )
+    }
+}
+impl Canon for F2Dot14 {
+    fn canon(&self) -> String {
+        format!("{}", self.raw_value())
+    }
+}
+impl Canon for Fixed {
+    fn canon(&self) -> String {
+        format!("{}", self.raw_value())
+    }
+}
+impl Canon for LongHorMetric {
+    fn canon(&self) -> String {
+        format!("({}, {})", self.advance_width, self.lsb)
+    }
+}
+impl Canon for OwnRec {
+    fn canon(&self) -> String {
+        format!("({}, {})", self.a, self.b)
+    }
+}
+
+type TPair = (U16Be, U16Be);
+type TTriple = (U8, U16Be, U32Be);
+type TQuad = (U8, I8, I16Be, U24Be);
+
+/// Dispatch a generic body over the static type selected by a `Ty` value.
+macro_rules! with_ty {
+    ($ty:expr, $T:ident, $body:expr) => {
+        match $ty {
+            Ty::U8 => { type $T = U8; $body }
+            Ty::I8 => { type $T = I8; $body }
+            Ty::U16 => { type $T = U16Be; $body }
+            Ty::I16 => { type $T = I16Be; $body }
+            Ty::U24 => { type $T = U24Be; $body }
+            Ty::U32 => { type $T = U32Be; $body }
+            Ty::I32 => { type $T = I32Be; $body }
+            Ty::U64 => { type $T = U64Be; $body }
+            Ty::I64 => { type $T = I64Be; $body }
+            Ty::Pair => { type $T = TPair; $body }
+            Ty::Triple => { type $T = TTriple; $body }
+            Ty::Quad => { type $T = TQuad; $body }
+            Ty::F2Dot14 => { type $T = F2Dot14; $body }
+            Ty::Fixed => { type $T = Fixed; $body }
+            Ty::Lhm => { type $T = LongHorMetric; $body }
+            Ty::Own => { type $T = OwnRec; $body }
+        }
+    };
+}
+
+enum Arr<'a> {
+    U8(ReadArray<'a, U8>),
+    I8(ReadArray<'a, I8>),
+    U16(ReadArray<'a, U16Be>),
+    I16(ReadArray<'a, I16Be>),
+    U24(ReadArray<'a, U24Be>),
+    U32(ReadArray<'a, U32Be>),
+    I32(ReadArray<'a, I32Be>),
+    U64(ReadArray<'a, U64Be>),
+    I64(ReadArray<'a, I64Be>),
+    Pair(ReadArray<'a, TPair>),
+    Triple(ReadArray<'a, TTriple>),
+    Quad(ReadArray<'a, TQuad>),
+    F2Dot14(ReadArray<'a, F2Dot14>),
+    Fixed(ReadArray<'a, Fixed>),
+    Lhm(ReadArray<'a, LongHorMetric>),
+    Own(ReadArray<'a, OwnRec>),
+    Dep(ReadArray<'a, DepRec>),
+}
+
+trait IntoArr<'a>: ReadUnchecked + Sized {
+    fn wrap(a: ReadArray<'a, Self>) -> Arr<'a>;
+}
+macro_rules! into_arr {
+    ($($t:ty => $v:ident),*) => {$(impl<'a> IntoArr<'a> for $t { fn wrap(a: ReadArray<'a, Self>) -> Arr<'a> { Arr::$v(a) } })*};
+}
+into_arr!(U8 => U8, I8 => I8, U16Be => U16, I16Be => I16, U24Be => U24, U32Be => U32, I32Be => I32,
+          U64Be => U64, I64Be => I64, TPair => Pair, TTriple => Triple, TQuad => Quad,
+          F2Dot14 => F2Dot14, Fixed => Fixed, LongHorMetric => Lhm, OwnRec => Own);
+
+macro_rules! with_arr {
+    ($arr:expr, $a:ident, $body:expr, $dep:expr) => {
+        match $arr {
+            Arr::U8($a) => $body,
+            Arr::I8($a) => $body,
+            Arr::U16($a) => $body,
+            Arr::I16($a) => $body,
+            Arr::U24($a) => $body,
+            Arr::U32($a) => $body,
+            Arr::I32($a) => $body,
+            Arr::U64($a) => $body,
+            Arr::I64($a) => $body,
+            Arr::Pair($a) => $body,
+            Arr::Triple($a) => $body,
+            Arr::Quad($a) => $body,
+            Arr::F2Dot14($a) => $body,
+            Arr::Fixed($a) => $body,
+            Arr::Lhm($a) => $body,
+            Arr::Own($a) => $body,
+            Arr::Dep($a) => $dep,
+        }
+    };
+}
+
+#[derive(Serialize, Deserialize, Clone, Debug)]
+#[serde(tag = "op")]
+pub enum ROp {
+    NewScope,
+    ReadBufScope { owned: bool },
+    ScopeOffset { s: usize, n: usize },
+    ScopeOffsetLength { s: usize, off: usize, len: usize },
+    ScopeCtxt { s: usize },
+    ScopeRead { s: usize, ty: Ty },
+    CtxtRead { c: usize, ty: Ty, generic: bool },
+    CtxtReadArray { c: usize, ty: Ty, len: usize },
+    CtxtReadArrayStride { c: usize, ty: Ty, len: usize, stride: usize },
+    CtxtReadArrayUpto { c: usize, ty: Ty, len: usize },
+    CtxtReadArrayDep { c: usize, size: usize, len: usize },
+    CtxtReadScope { c: usize, len: usize },
+    CtxtReadSlice { c: usize, len: usize },
+    CtxtUntilNibble { c: usize, nib: u8 },
+    CtxtScope { c: usize },
+    CtxtAvail { c: usize },
+    CtxtClone { c: usize },
+    ArrInfo { a: usize },
+    /// via: 0 read_item, 1 get_item, 2 check_index, 3 cow read_item, 4 cow get_item
+    ArrItem { a: usize, i: usize, via: u8 },
+    /// via: 0 to_vec, 1 read_to_vec, 2 iter, 3 iter_res, 4 cow(borrowed) iter, 5 into_iter,
+    /// 6 cow(owned) iter
+    ArrAll { a: usize, via: u8 },
+    ArrSearch { a: usize, pick: usize, delta: i8 },
+}
+
+impl ROp {
+    fn kind(&self) -> &'static str {
+        match self {
+            ROp::NewScope => "NewScope",
+            ROp::ReadBufScope { .. } => "ReadBufScope",
+            ROp::ScopeOffset { .. } => "ScopeOffset",
+            ROp::ScopeOffsetLength { .. } => "ScopeOffsetLength",
+            ROp::ScopeCtxt { .. } => "ScopeCtxt",
+            ROp::ScopeRead { .. } => "ScopeRead",
+            ROp::CtxtRead { .. } => "CtxtRead",
+            ROp::CtxtReadArray { .. } => "CtxtReadArray",
+            ROp::CtxtReadArrayStride { .. } => "CtxtReadArrayStride",
+            ROp::CtxtReadArrayUpto { .. } => "CtxtReadArrayUpto",
+            ROp::CtxtReadArrayDep { .. } => "CtxtReadArrayDep",
+            ROp::CtxtReadScope { .. } => "CtxtReadScope",
+            ROp::CtxtReadSlice { .. } => "CtxtReadSlice",
+            ROp::CtxtUntilNibble { .. } => "CtxtUntilNibble",
+            ROp::CtxtScope { .. } => "CtxtScope",
+            ROp::CtxtAvail { .. } => "CtxtAvail",
+            ROp::CtxtClone { .. } => "CtxtClone",
+            ROp::ArrInfo { .. } => "ArrInfo",
+            ROp::ArrItem { .. } => "ArrItem",
+            ROp::ArrAll { .. } => "ArrAll",
+            ROp::ArrSearch { .. } => "ArrSearch",
+        }
+    }
+}
+
+#[derive(Serialize, Deserialize, Clone, Debug)]
+pub struct ReaderTrace {
+    pub version: u32,
+    pub property: String,
+    pub seed: u64,
+    pub run: u64,
+    pub buf: Vec<u8>,
+    pub cut: usize,
+    /// true: the window is its own exact-size allocation (Miri tier); false: poison tail.
+    #[serde(default)]
+    pub exact: bool,
+    pub ops: Vec<ROp>,
+}
+
+// ------------------------------------------------------------------ model
+
+#[derive(Clone, Copy, Debug)]
+struct ScopeM {
+    start: usize,
+    len: usize,
+}
+#[derive(Clone, Copy, Debug)]
+struct CtxtM {
+    start: usize,
+    len: usize,
+    pos: usize,
+}
+#[derive(Clone, Copy, Debug)]
+struct ArrM {
+    start: usize,
+    length: usize,
+    stride: usize,
+    ty: Option<Ty>,
+    dep: usize,
+}
+
+impl ArrM {
+    fn elem_size(&self) -> usize {
+        self.ty.map(|t| t.size()).unwrap_or(self.dep)
+    }
+    fn elem(&self, w: &[u8], i: usize) -> String {
+        let off = self.start + i * self.stride;
+        match self.ty {
+            Some(t) => decode(t, &w[off..off + t.size()]),
+            None => {
+                let mut v = 0u64;
+                for k in 0..self.dep {
+                    v = (v << 8) | u64::from(w[off + k]);
+                }
+                format!("{}", v)
+            }
+        }
+    }
+}
+
+/// What the model allows: a definite outcome, or "either" where the statement is silent.
+enum Expect {
+    Ok(String),
+    Err,
+    /// zero-length request at/past the end etc.
+    Either,
+}
+
+pub struct Problem {
+    pub name: String,
+    pub msg: String,
+    pub op_index: usize,
+    pub op_kind: String,
+}
+
+fn arg_class(v: usize, rem: usize, size: usize) -> &'static str {
+    let size = size.max(1);
+    if v == 0 {
+        "0"
+    } else if v == usize::MAX {
+        "MAX"
+    } else if v >= (1usize << 63) {
+        ">=2^63"
+    } else if v > usize::MAX / size {
+        "overflowing"
+    } else if v > (1usize << 32) {
+        ">2^32"
+    } else if v.checked_mul(size).map_or(false, |b| b == rem) {
+        "exact"
+    } else if v.checked_mul(size).map_or(false, |b| b < rem) {
+        "inside"
+    } else {
+        "beyond"
+    }
+}
+
+struct Sim<'w> {
+    w: &'w [u8],
+    scopes: Vec<(ReadScope<'w>, ScopeM)>,
+    ctxts: Vec<(ReadCtxt<'w>, CtxtM)>,
+    arrs: Vec<(Arr<'w>, ArrM)>,
+    bufs: Vec<Box<ReadBuf<'w>>>,
+}
+
+fn ptr_off(w: &[u8], d: &[u8]) -> isize {
+    (d.as_ptr() as isize) - (w.as_ptr() as isize)
+}
+
+impl<'w> Sim<'w> {
+    fn check_scope(&self, real: &ReadScope<'w>, m: &ScopeM) -> Result<(), String> {
+        let d = real.data();
+        if d.len() != m.len {
+            return Err(format!("scope length {} != model {}", d.len(), m.len));
+        }
+        if m.len > 0 && ptr_off(self.w, d) != m.start as isize {
+            return Err(format!(
+                "scope starts at {} but model says {}",
+                ptr_off(self.w, d),
+                m.start
+            ));
+        }
+        Ok(())
+    }
+    fn check_ctxt(&self, real: &ReadCtxt<'w>, m: &CtxtM) -> Result<(), String> {
+        let s = real.scope();
+        self.check_scope(
+            &s,
+            &ScopeM {
+                start: m.start + m.pos,
+                len: m.len - m.pos,
+            },
+        )
+        .map_err(|e| format!("cursor: {}", e))?;
+        if real.bytes_available() != (m.pos < m.len) {
+            return Err("bytes_available disagrees with the model".into());
+        }
+        Ok(())
+    }
+}
+
+/// Execute one program. Returns problems (empty = all oracles held) and notes coverage.
+pub fn run_program(t: &ReaderTrace, cov: &mut BTreeSet<String>, verbose: bool) -> (Vec<Problem>, u64) {
+    let mut problems = Vec::new();
+    let mut digest = Fnv::new();
+    let cut = t.cut.min(t.buf.len());
+    let exact_storage: Vec<u8>;
+    let w: &[u8] = if t.exact {
+        exact_storage = t.buf[..cut].to_vec();
+        &exact_storage
+    } else {
+        &t.buf[..cut]
+    };
+    // Leak-free lifetime trick: `ReadBuf`s created by ops live in `sim.bufs` (boxed) and are
+    // referenced with the window lifetime; they are dropped with `sim`.
+    let mut sim = Sim {
+        w,
+        scopes: Vec::new(),
+        ctxts: Vec::new(),
+        arrs: Vec::new(),
+        bufs: Vec::new(),
+    };
+    for (i, op) in t.ops.iter().enumerate() {
+        let before_ctxts: Vec<CtxtM> = sim.ctxts.iter().map(|c| c.1).collect();
+        let r = guard(|| step(&mut sim, op, cov));
+        let line = match &r {
+            Ok(Ok(s)) => format!("{} {} {}", i, op.kind(), s),
+            Ok(Err(e)) => format!("{} {} MISMATCH {}", i, op.kind(), e),
+            Err(p) => format!("{} {} PANIC {}", i, op.kind(), p.msg_class()),
+        };
+        digest.write(line.as_bytes());
+        if verbose {
+            eprintln!("{}", line);
+        }
+        match r {
+            Ok(Ok(_)) => {}
+            Ok(Err(e)) => {
+                problems.push(Problem {
+                    name: format!("model-mismatch:{}", op.kind()),
+                    msg: e,
+                    op_index: i,
+                    op_kind: op.kind().into(),
+                });
+                break;
+            }
+            Err(p) => {
+                let name = if p.kind() == "oob" {
+                    format!("oob:{}", op.kind())
+                } else {
+                    format!("panic:{}:{}:{}", op.kind(), p.rel_file(), p.line)
+                };
+                problems.push(Problem {
+                    name,
+                    msg: p.msg.chars().take(200).collect(),
+                    op_index: i,
+                    op_kind: op.kind().into(),
+                });
+                break;
+            }
+        }
+        // Every pre-existing cursor must be where the model says (failed ops leave no effect,
+        // successful ops move only their own cursor).
+        let _ = before_ctxts;
+        for (real, m) in &sim.ctxts {
+            if let Err(e) = sim.check_ctxt(real, m) {
+                problems.push(Problem {
+                    name: format!("cursor-drift:{}", op.kind()),
+                    msg: e,
+                    op_index: i,
+                    op_kind: op.kind().into(),
+                });
+                break;
+            }
+        }
+        if !problems.is_empty() {
+            break;
+        }
+    }
+    (problems, digest.finish())
+}
+
+fn cmp_result(kind: &str, real: Result<String, String>, exp: Expect) -> Result<String, String> {
+    match (real, exp) {
+        (Ok(v), Expect::Ok(e)) => {
+            if v == e {
+                Ok(format!("ok {}", short(&v)))
+            } else {
+                Err(format!("{}: library returned {} but the bytes decode to {}", kind, short(&v), short(&e)))
+            }
+        }
+        (Err(_), Expect::Err) => Ok("err".into()),
+        (Ok(v), Expect::Either) => Ok(format!("ok? {}", short(&v))),
+        (Err(_), Expect::Either) => Ok("err?".into()),
+        (Ok(v), Expect::Err) => Err(format!(
+            "{}: library succeeded with {} where the window does not contain the data",
+            kind,
+            short(&v)
+        )),
+        (Err(e), Expect::Ok(v)) => Err(format!(
+            "{}: library failed ({}) but the window contains {}",
+            kind,
+            e,
+            short(&v)
+        )),
+    }
+}
+
+fn short(s: &str) -> String {
+    if s.len() > 120 {
+        format!("{}…[{}]", &s[..100], s.len())
+    } else {
+        s.to_string()
+    }
+}
+
+fn step<'w>(sim: &mut Sim<'w>, op: &ROp, cov: &mut BTreeSet<String>) -> Result<String, String> {
+    let w = sim.w;
+    macro_rules! pool {
+        ($p:expr, $i:expr) => {{
+            if $p.is_empty() {
+                return Ok("skip".into());
+            }
+            $i % $p.len()
+        }};
+    }
+    match op {
+        ROp::NewScope => {
+            let s = ReadScope::new(w);
+            let m = ScopeM {
+                start: 0,
+                len: w.len(),
+            };
+            sim.check_scope(&s, &m)?;
+            sim.scopes.push((s, m));
+            Ok("scope".into())
+        }
+        ROp::ReadBufScope { owned } => {
+            // ReadBuf over the same window; an owned buffer is a copy, so positions are
+            // relative to the copy: only lengths and values are comparable. We model it as a
+            // scope over the window for the borrowed variant only.
+            if *owned {
+                let b: ReadBuf<'static> = ReadBuf::from(w.to_vec());
+                let ok = b.scope().data() == w;
+                let back = b.into_data();
+                if !ok || &back[..] != w {
+                    return Err("ReadBuf(owned) does not expose the bytes it was given".into());
+                }
+                Ok("readbuf-owned".into())
+            } else {
+                let b: Box<ReadBuf<'w>> = Box::new(ReadBuf::from(w));
+                // SAFETY (harness only): the box is kept in sim.bufs until sim is dropped.
+                let r: &'w ReadBuf<'w> = unsafe { &*(&*b as *const ReadBuf<'w>) };
+                sim.bufs.push(b);
+                let s = r.scope();
+                let m = ScopeM {
+                    start: 0,
+                    len: w.len(),
+                };
+                sim.check_scope(&s, &m)?;
+                sim.scopes.push((s, m));
+                Ok("readbuf".into())
+            }
+        }
+        ROp::ScopeOffset { s, n } => {
+            let k = pool!(sim.scopes, *s);
+            let (real, m) = sim.scopes[k];
+            cov.insert(format!("ScopeOffset|{}", arg_class(*n, m.len, 1)));
+            let r = real.offset(*n);
+            let nm = if *n <= m.len {
+                ScopeM {
+                    start: m.start + *n,
+                    len: m.len - *n,
+                }
+            } else {
+                ScopeM { start: 0, len: 0 }
+            };
+            sim.check_scope(&r, &nm)?;
+            sim.scopes.push((r, nm));
+            Ok(format!("scope {}+{}", nm.start, nm.len))
+        }
+        ROp::ScopeOffsetLength { s, off, len } => {
+            let k = pool!(sim.scopes, *s);
+            let (real, m) = sim.scopes[k];
+            cov.insert(format!(
+                "ScopeOffsetLength|{}|{}",
+                arg_class(*off, m.len, 1),
+                arg_class(*len, m.len.saturating_sub(*off), 1)
+            ));
+            let r = real.offset_length(*off, *len);
+            let fits = off.checked_add(*len).map_or(false, |e| e <= m.len);
+            match (r, fits, *len) {
+                (Ok(sc), true, _) => {
+                    let nm = ScopeM {
+                        start: m.start + *off,
+                        len: *len,
+                    };
+                    sim.check_scope(&sc, &nm)?;
+                    sim.scopes.push((sc, nm));
+                    Ok("ok".into())
+                }
+                (Ok(sc), false, 0) => {
+                    // zero bytes requested past the end: statement is silent; must be empty
+                    if !sc.data().is_empty() {
+                        return Err("zero-length request produced a non-empty scope".into());
+                    }
+                    sim.scopes.push((sc, ScopeM { start: 0, len: 0 }));
+                    Ok("ok-empty-past-end".into())
+                }
+                (Ok(sc), false, _) => Err(format!(
+                    "offset_length({}, {}) succeeded on a scope of {} bytes (got {} bytes)",
+                    off,
+                    len,
+                    m.len,
+                    sc.data().len()
+                )),
+                (Err(_), false, _) => Ok("err".into()),
+                (Err(_), true, 0) => Ok("err-zero".into()),
+                (Err(e), true, _) => Err(format!(
+                    "offset_length({}, {}) failed ({:?}) on a scope of {} bytes",
+                    off, len, e, m.len
+                )),
+            }
+        }
+        ROp::ScopeCtxt { s } => {
+            let k = pool!(sim.scopes, *s);
+            let (real, m) = sim.scopes[k];
+            let c = real.ctxt();
+            let cm = CtxtM {
+                start: m.start,
+                len: m.len,
+                pos: 0,
+            };
+            sim.check_ctxt(&c, &cm)?;
+            sim.ctxts.push((c, cm));
+            Ok("ctxt".into())
+        }
+        ROp::ScopeRead { s, ty } => {
+            let k = pool!(sim.scopes, *s);
+            let (real, m) = sim.scopes[k];
+            let exp = if ty.size() <= m.len {
+                Expect::Ok(decode(*ty, &w[m.start..m.start + ty.size()]))
+            } else {
+                Expect::Err
+            };
+            cov.insert(format!("ScopeRead|{:?}|{}", ty, ty.size() <= m.len));
+            let r: Result<String, String> = with_ty!(*ty, T, {
+                real.read::<T>()
+                    .map(|v| v.canon())
+                    .map_err(|e| format!("{:?}", e))
+            });
+            cmp_result("ScopeRead", r, exp)
+        }
+        ROp::CtxtRead { c, ty, generic } => {
+            let k = pool!(sim.ctxts, *c);
+            let m = sim.ctxts[k].1;
+            let fits = m.pos.checked_add(ty.size()).map_or(false, |e| e <= m.len);
+            cov.insert(format!("CtxtRead|{:?}|{}|{}", ty, generic, fits));
+            let exp = if fits {
+                Expect::Ok(decode(*ty, &w[m.start + m.pos..m.start + m.pos + ty.size()]))
+            } else {
+                Expect::Err
+            };
+            let real = &mut sim.ctxts[k].0;
+            let r: Result<String, String> = if *generic {
+                with_ty!(*ty, T, {
+                    real.read::<T>()
+                        .map(|v| v.canon())
+                        .map_err(|e| format!("{:?}", e))
+                })
+            } else {
+                let e = |_| "ReadEof".to_string();
+                match ty {
+                    Ty::U8 => real.read_u8().map(|v| v.canon()).map_err(e),
+                    Ty::I8 => real.read_i8().map(|v| v.canon()).map_err(e),
+                    Ty::U16 => real.read_u16be().map(|v| v.canon()).map_err(e),
+                    Ty::I16 => real.read_i16be().map(|v| v.canon()).map_err(e),
+                    Ty::U32 => real.read_u32be().map(|v| v.canon()).map_err(e),
+                    Ty::I32 => real.read_i32be().map(|v| v.canon()).map_err(e),
+                    Ty::U64 => real.read_u64be().map(|v| v.canon()).map_err(e),
+                    Ty::I64 => real.read_i64be().map(|v| v.canon()).map_err(e),
+                    other => with_ty!(*other, T, {
+                        real.read::<T>()
+                            .map(|v| v.canon())
+                            .map_err(|e| format!("{:?}", e))
+                    }),
+                }
+            };
+            let out = cmp_result("CtxtRead", r, exp)?;
+            if fits {
+                sim.ctxts[k].1.pos += ty.size();
+            }
+            Ok(out)
+        }
+        ROp::CtxtReadArray { c, ty, len } => {
+            let k = pool!(sim.ctxts, *c);
+            let m = sim.ctxts[k].1;
+            read_array_common(sim, k, m, Some(*ty), 0, *len, ty.size(), 0, cov)
+        }
+        ROp::CtxtReadArrayStride { c, ty, len, stride } => {
+            let k = pool!(sim.ctxts, *c);
+            let m = sim.ctxts[k].1;
+            read_array_common(sim, k, m, Some(*ty), 0, *len, *stride, 1, cov)
+        }
+        ROp::CtxtReadArrayUpto { c, ty, len } => {
+            let k = pool!(sim.ctxts, *c);
+            let m = sim.ctxts[k].1;
+            read_array_common(sim, k, m, Some(*ty), 0, *len, ty.size(), 2, cov)
+        }
+        ROp::CtxtReadArrayDep { c, size, len } => {
+            let k = pool!(sim.ctxts, *c);
+            let m = sim.ctxts[k].1;
+            read_array_common(sim, k, m, None, *size, *len, *size, 3, cov)
+        }
+        ROp::CtxtReadScope { c, len } | ROp::CtxtReadSlice { c, len } => {
+            let k = pool!(sim.ctxts, *c);
+            let m = sim.ctxts[k].1;
+            let is_slice = matches!(op, ROp::CtxtReadSlice { .. });
+            let fits = m.pos.checked_add(*len).map_or(false, |e| e <= m.len);
+            cov.insert(format!(
+                "{}|{}",
+                op.kind(),
+                arg_class(*len, m.len - m.pos, 1)
+            ));
+            let nm = ScopeM {
+                start: m.start + m.pos,
+                len: *len,
+            };
+            let real = &mut sim.ctxts[k].0;
+            if is_slice {
+                match real.read_slice(*len) {
+                    Ok(sl) => {
+                        if !fits {
+                            return Err(format!(
+                                "read_slice({}) succeeded with {} bytes left",
+                                len,
+                                m.len - m.pos
+                            ));
+                        }
+                        if sl.len() != *len || (*len > 0 && ptr_off(w, sl) != nm.start as isize) {
+                            return Err("read_slice returned the wrong bytes".into());
+                        }
+                        sim.ctxts[k].1.pos += *len;
+                        Ok("ok".into())
+                    }
+                    Err(_) => {
+                        if fits && *len > 0 {
+                            return Err(format!(
+                                "read_slice({}) failed with {} bytes left",
+                                len,
+                                m.len - m.pos
+                            ));
+                        }
+                        Ok("err".into())
+                    }
+                }
+            } else {
+                match real.read_scope(*len) {
+                    Ok(sc) => {
+                        if !fits {
+                            return Err(format!(
+                                "read_scope({}) succeeded with {} bytes left",
+                                len,
+                                m.len - m.pos
+                            ));
+                        }
+                        sim.check_scope(&sc, &nm)?;
+                        sim.ctxts[k].1.pos += *len;
+                        sim.scopes.push((sc, nm));
+                        Ok("ok".into())
+                    }
+                    Err(_) => {
+                        if fits && *len > 0 {
+                            return Err(format!(
+                                "read_scope({}) failed with {} bytes left",
+                                len,
+                                m.len - m.pos
+                            ));
+                        }
+                        Ok("err".into())
+                    }
+                }
+            }
+        }
+        ROp::CtxtUntilNibble { c, nib } => {
+            let k = pool!(sim.ctxts, *c);
+            let m = sim.ctxts[k].1;
+            let rest = &w[m.start + m.pos..m.start + m.len];
+            let found = rest
+                .iter()
+                .position(|&b| (b >> 4) == *nib || (b & 0xF) == *nib);
+            cov.insert(format!("CtxtUntilNibble|{}", found.is_some()));
+            let real = &mut sim.ctxts[k].0;
+            match (real.read_until_nibble(*nib), found) {
+                (Ok(sl), Some(p)) => {
+                    if sl.len() != p + 1 || ptr_off(w, sl) != (m.start + m.pos) as isize {
+                        return Err(format!(
+                            "read_until_nibble returned {} bytes, expected {}",
+                            sl.len(),
+                            p + 1
+                        ));
+                    }
+                    sim.ctxts[k].1.pos += p + 1;
+                    Ok("ok".into())
+                }
+                (Err(_), None) => Ok("err".into()),
+                (Ok(sl), None) => Err(format!(
+                    "read_until_nibble found a nibble the window does not contain ({} bytes)",
+                    sl.len()
+                )),
+                (Err(_), Some(p)) => Err(format!(
+                    "read_until_nibble failed but the nibble is at +{}",
+                    p
+                )),
+            }
+        }
+        ROp::CtxtScope { c } => {
+            let k = pool!(sim.ctxts, *c);
+            let m = sim.ctxts[k].1;
+            let s = sim.ctxts[k].0.scope();
+            let nm = ScopeM {
+                start: m.start + m.pos,
+                len: m.len - m.pos,
+            };
+            sim.check_scope(&s, &nm)?;
+            sim.scopes.push((s, nm));
+            Ok("scope".into())
+        }
+        ROp::CtxtAvail { c } => {
+            let k = pool!(sim.ctxts, *c);
+            let m = sim.ctxts[k].1;
+            if sim.ctxts[k].0.bytes_available() != (m.pos < m.len) {
+                return Err("bytes_available disagrees".into());
+            }
+            Ok(format!("{}", m.pos < m.len))
+        }
+        ROp::CtxtClone { c } => {
+            let k = pool!(sim.ctxts, *c);
+            let (real, m) = (sim.ctxts[k].0.clone(), sim.ctxts[k].1);
+            sim.ctxts.push((real, m));
+            Ok("clone".into())
+        }
+        ROp::ArrInfo { a } => {
+            let k = pool!(sim.arrs, *a);
+            let m = sim.arrs[k].1;
+            let (len, empty, last): (usize, bool, Option<String>) = with_arr!(
+                &sim.arrs[k].0,
+                arr,
+                (arr.len(), arr.is_empty(), arr.last().map(|v| v.canon())),
+                (sim_len(arr), arr.is_empty(), None)
+            );
+            if len != m.length || empty != (m.length == 0) {
+                return Err(format!("len {} / is_empty {} vs model length {}", len, empty, m.length));
+            }
+            if m.ty.is_some() {
+                let exp = if m.length > 0 {
+                    Some(m.elem(w, m.length - 1))
+                } else {
+                    None
+                };
+                if last != exp {
+                    return Err(format!("last() = {:?}, model {:?}", last, exp));
+                }
+            }
+            Ok(format!("len={}", len))
+        }
+        ROp::ArrItem { a, i, via } => {
+            let k = pool!(sim.arrs, *a);
+            let m = sim.arrs[k].1;
+            let inside = *i < m.length;
+            cov.insert(format!(
+                "ArrItem|{}|{}|{}",
+                via,
+                m.ty.map(|t| format!("{:?}", t)).unwrap_or_else(|| "Dep".into()),
+                if inside { "inside" } else if *i == m.length { "at-end" } else { "beyond" }
+            ));
+            let exp = if inside {
+                Expect::Ok(m.elem(w, *i))
+            } else {
+                Expect::Err
+            };
+            let r: Result<String, String> = with_arr!(
+                &sim.arrs[k].0,
+                arr,
+                match via {
+                    0 => arr
+                        .read_item(*i)
+                        .map(|v| v.canon())
+                        .map_err(|e| format!("{:?}", e)),
+                    1 => arr
+                        .get_item(*i)
+                        .map(|v| v.canon())
+                        .ok_or_else(|| "None".to_string()),
+                    2 => arr
+                        .check_index(*i)
+                        .map(|_| m.elem_or_empty(w, *i))
+                        .map_err(|e| format!("{:?}", e)),
+                    3 => ReadArrayCow::Borrowed(arr.clone())
+                        .read_item(*i)
+                        .map(|v| v.canon())
+                        .map_err(|e| format!("{:?}", e)),
+                    _ => cow_owned(arr)
+                        .get_item(*i)
+                        .map(|v| v.canon())
+                        .ok_or_else(|| "None".to_string()),
+                },
+                match via {
+                    2 => arr
+                        .check_index(*i)
+                        .map(|_| m.elem_or_empty(w, *i))
+                        .map_err(|e| format!("{:?}", e)),
+                    _ => arr
+                        .read_item(*i)
+                        .map(|v| format!("{}", v))
+                        .map_err(|e| format!("{:?}", e)),
+                }
+            );
+            cmp_result("ArrItem", r, exp)
+        }
+        ROp::ArrAll { a, via } => {
+            let k = pool!(sim.arrs, *a);
+            let m = sim.arrs[k].1;
+            if m.length > 100_000 {
+                return Ok("skip-large".into());
+            }
+            cov.insert(format!(
+                "ArrAll|{}|{}|{}",
+                via,
+                m.ty.map(|t| format!("{:?}", t)).unwrap_or_else(|| "Dep".into()),
+                if m.length == 0 { "empty" } else if m.stride > m.elem_size() { "strided" } else { "dense" }
+            ));
+            let exp: Vec<String> = (0..m.length).map(|i| m.elem(w, i)).collect();
+            let cap = m.length + 4;
+            let got: Result<Vec<String>, String> = with_arr!(
+                &sim.arrs[k].0,
+                arr,
+                match via {
+                    0 => Ok(arr.to_vec().iter().map(|v| v.canon()).collect()),
+                    1 => arr
+                        .read_to_vec()
+                        .map(|v| v.iter().map(|v| v.canon()).collect())
+                        .map_err(|e| format!("{:?}", e)),
+                    2 => Ok(arr.iter().take(cap).map(|v| v.canon()).collect()),
+                    3 => arr
+                        .iter_res()
+                        .take(cap)
+                        .map(|r| r.map(|v| v.canon()).map_err(|e| format!("{:?}", e)))
+                        .collect(),
+                    4 => Ok(ReadArrayCow::Borrowed(arr.clone())
+                        .iter()
+                        .take(cap)
+                        .map(|v| v.canon())
+                        .collect()),
+                    5 => Ok(arr.into_iter().take(cap).map(|v| v.canon()).collect()),
+                    _ => Ok(cow_owned(arr)
+                        .iter()
+                        .take(cap)
+                        .map(|v| v.canon())
+                        .collect()),
+                },
+                match via {
+                    1 => arr
+                        .read_to_vec()
+                        .map(|v| v.iter().map(|v| format!("{}", v)).collect())
+                        .map_err(|e| format!("{:?}", e)),
+                    _ => arr
+                        .iter_res()
+                        .take(cap)
+                        .map(|r| r.map(|v| format!("{}", v)).map_err(|e| format!("{:?}", e)))
+                        .collect(),
+                }
+            );
+            match got {
+                Ok(v) => {
+                    if v != exp {
+                        let first = v
+                            .iter()
+                            .zip(&exp)
+                            .position(|(a, b)| a != b)
+                            .unwrap_or(v.len().min(exp.len()));
+                        return Err(format!(
+                            "array exposes {} elements, window holds {}; first difference at {} ({:?} vs {:?})",
+                            v.len(),
+                            exp.len(),
+                            first,
+                            v.get(first),
+                            exp.get(first)
+                        ));
+                    }
+                    Ok(format!("{} elems", v.len()))
+                }
+                Err(e) => Err(format!("element read failed inside the declared window: {}", e)),
+            }
+        }
+        ROp::ArrSearch { a, pick, delta } => {
+            let k = pool!(sim.arrs, *a);
+            let m = sim.arrs[k].1;
+            let Some(ty) = m.ty else {
+                return Ok("skip-dep".into());
+            };
+            if m.length > 100_000 {
+                return Ok("skip-large".into());
+            }
+            // Key: first component of element `pick` (+delta); compare on the first component.
+            let firsts: Vec<i128> = (0..m.length).map(|i| first_comp(ty, w, &m, i)).collect();
+            let key: i128 = if firsts.is_empty() {
+                i128::from(*delta)
+            } else {
+                firsts[*pick % firsts.len()] + i128::from(*delta)
+            };
+            let sorted = firsts.windows(2).all(|p| p[0] <= p[1]);
+            cov.insert(format!("ArrSearch|{:?}|sorted={}|len={}", ty, sorted, m.length.min(3)));
+            let mut probes: Vec<usize> = Vec::new();
+            let r: Result<usize, usize> = with_arr!(
+                &sim.arrs[k].0,
+                arr,
+                {
+                    let mut n = 0usize;
+                    arr.binary_search_by(|v| {
+                        n += 1;
+                        probes.push(n);
+                        first_of(&v.canon()).cmp(&key)
+                    })
+                },
+                Err(0)
+            );
+            match r {
+                Ok(i) => {
+                    if i >= m.length || firsts[i] != key {
+                        return Err(format!("binary_search Ok({}) does not point at the key", i));
+                    }
+                }
+                Err(i) => {
+                    if i > m.length {
+                        return Err(format!("binary_search Err({}) beyond length {}", i, m.length));
+                    }
+                    if sorted
+                        && (firsts[..i].iter().any(|v| *v >= key)
+                            || firsts[i..].iter().any(|v| *v <= key))
+                    {
+                        return Err(format!(
+                            "binary_search Err({}) is not the insertion point of the key",
+                            i
+                        ));
+                    }
+                }
+            }
+            if probes.len() > 70 {
+                return Err(format!("binary_search made {} probes", probes.len()));
+            }
+            Ok(format!("{:?}", r))
+        }
+    }
+}
+
+fn cow_owned<'a, T: ReadUnchecked>(arr: &ReadArray<'a, T>) -> ReadArrayCow<'a, T> {
+    ReadArrayCow::Owned(arr.to_vec())
+}
+
+fn sim_len<T: ReadFixedSizeDep>(a: &ReadArray<'_, T>) -> usize {
+    a.len()
+}
+
+fn first_of(canon: &str) -> i128 {
+    let s = canon.trim_start_matches('(');
+    let end = s.find(|c: char| c == ',' || c == ')').unwrap_or(s.len());
+    s[..end].trim().parse::<i128>().unwrap_or(0)
+}
+
+fn first_comp(ty: Ty, w: &[u8], m: &ArrM, i: usize) -> i128 {
+    let _ = ty;
+    first_of(&m.elem(w, i))
+}
+
+impl ArrM {
+    fn elem_or_empty(&self, w: &[u8], i: usize) -> String {
+        if i < self.length {
+            self.elem(w, i)
+        } else {
+            String::new()
+        }
+    }
+}
+
+#[allow(clippy::too_many_arguments)]
+fn read_array_common<'w>(
+    sim: &mut Sim<'w>,
+    k: usize,
+    m: CtxtM,
+    ty: Option<Ty>,
+    dep: usize,
+    len: usize,
+    stride: usize,
+    mode: u8, // 0 read_array, 1 stride, 2 upto_hack, 3 dep
+    cov: &mut BTreeSet<String>,
+) -> Result<String, String> {
+    let rem = m.len - m.pos;
+    let size = ty.map(|t| t.size()).unwrap_or(dep);
+    let kind = ["read_array", "read_array_stride", "read_array_upto_hack", "read_array_dep"][mode as usize];
+    cov.insert(format!(
+        "{}|{}|{}|{}",
+        kind,
+        ty.map(|t| format!("{:?}", t)).unwrap_or_else(|| format!("Dep{}", dep)),
+        arg_class(len, rem, stride),
+        if mode == 1 { if stride < size { "stride<size" } else if stride == size { "stride=size" } else { "stride>size" } } else { "-" }
+    ));
+    // Model.
+    let (exp_len, exp_ok): (usize, Option<bool>) = match mode {
+        2 => (len.min(rem / size.max(1)), Some(true)),
+        1 if size > stride => (0, Some(false)),
+        _ => match len.checked_mul(stride) {
+            None => (0, Some(false)),
+            Some(0) => (len, None), // zero bytes: statement silent about failing at the end
+            Some(b) => (len, Some(b <= rem)),
+        },
+    };
+    let real = &mut sim.ctxts[k].0;
+    let r: Result<Arr<'w>, String> = match (ty, mode) {
+        (Some(t), 0) => with_ty!(t, T, real.read_array::<T>(len).map(<T as IntoArr>::wrap).map_err(|e| format!("{:?}", e))),
+        (Some(t), 1) => with_ty!(t, T, real.read_array_stride::<T>(len, stride).map(<T as IntoArr>::wrap).map_err(|e| format!("{:?}", e))),
+        (Some(t), _) => with_ty!(t, T, real.read_array_upto_hack::<T>(len).map(<T as IntoArr>::wrap).map_err(|e| format!("{:?}", e))),
+        (None, _) => real
+            .read_array_dep::<DepRec>(len, dep)
+            .map(Arr::Dep)
+            .map_err(|e| format!("{:?}", e)),
+    };
+    match (r, exp_ok) {
+        (Ok(arr), Some(true)) | (Ok(arr), None) => {
+            let bytes = exp_len * stride;
+            if bytes > rem {
+                return Err(format!(
+                    "{}({}) succeeded needing {} bytes with {} left",
+                    kind, len, bytes, rem
+                ));
+            }
+            let am = ArrM {
+                start: m.start + m.pos,
+                length: exp_len,
+                stride: if mode == 1 { stride } else { size },
+                ty,
+                dep,
+            };
+            let real_len: usize = with_arr!(&arr, a, a.len(), a.len());
+            if real_len != exp_len {
+                return Err(format!(
+                    "{}({}) produced an array of {} elements, model {}",
+                    kind, len, real_len, exp_len
+                ));
+            }
+            sim.ctxts[k].1.pos += bytes;
+            sim.arrs.push((arr, am));
+            Ok(format!("arr len={}", exp_len))
+        }
+        (Ok(arr), Some(false)) => {
+            let real_len: usize = with_arr!(&arr, a, a.len(), a.len());
+            Err(format!(
+                "{}(len={}, stride={}) succeeded (array of {}) with only {} bytes left",
+                kind, len, stride, real_len, rem
+            ))
+        }
+        (Err(_), Some(false)) | (Err(_), None) => Ok("err".into()),
+        (Err(e), Some(true)) => Err(format!(
+            "{}(len={}, stride={}) failed ({}) with {} bytes left",
+            kind, len, stride, e, rem
+        )),
+    }
+}
+
+// ------------------------------------------------------------------ generator
+
+fn gen_len(rng: &mut Rng, rem: usize, size: usize) -> usize {
+    let size = size.max(1);
+    let fit = rem / size;
+    match rng.below(16) {
+        0 => 0,
+        1 => 1,
+        2 => fit.saturating_sub(1),
+        3 | 4 => fit,
+        5 => fit + 1,
+        6 => (1usize << 32) - 1,
+        7 => (1usize << 32) + 1,
+        8 => 1usize << 63,
+        9 => usize::MAX / size,
+        10 => (usize::MAX / size).wrapping_add(1),
+        11 => usize::MAX,
+        12 => (1usize << 63) + fit.max(1),
+        13 => (usize::MAX / size).wrapping_add(1).wrapping_add(fit),
+        _ => rng.usize_below(fit + 2),
+    }
+}
+
+pub fn generate(seed: u64, run: u64, exact: bool) -> ReaderTrace {
+    let mut rng = Rng::new(run_seed(seed, "C14R", run));
+    let blen = match rng.below(12) {
+        0 => 0,
+        1 => 1,
+        2 => 4096,
+        _ => rng.usize_below(49),
+    };
+    let mut buf: Vec<u8> = (0..blen)
+        .map(|_| match rng.below(6) {
+            0 => 0,
+            1 => 0xFF,
+            2 => 0x80,
+            _ => rng.next_u64() as u8,
+        })
+        .collect();
+    if rng.pct(25) {
+        // sorted content so that binary search has a meaningful oracle
+        buf.sort_unstable();
+    }
+    let cut = match rng.below(5) {
+        0 => blen,
+        1 => blen.saturating_sub(1),
+        _ => rng.usize_below(blen + 1),
+    };
+    // poison tail
+    buf.extend(std::iter::repeat(0xA5).take(16));
+    let nops = 1 + rng.usize_below(40);
+    let mut ops = vec![ROp::NewScope, ROp::ScopeCtxt { s: 0 }];
+    // The generator tracks nothing about the pool: indices are taken modulo the pool size at
+    // execution time, and length arguments are drawn relative to the window size.
+    for _ in 0..nops {
+        let ty = *rng.pick(ALL_TY);
+        let rem = rng.usize_below(cut + 1);
+        let any = rng.usize_below(64);
+        let op = match rng.below(30) {
+            0 => ROp::NewScope,
+            1 => ROp::ReadBufScope { owned: rng.pct(50) },
+            2 | 3 => ROp::ScopeOffset {
+                s: any,
+                n: gen_len(&mut rng, rem, 1),
+            },
+            4 | 5 => ROp::ScopeOffsetLength {
+                s: any,
+                off: gen_len(&mut rng, rem, 1),
+                len: gen_len(&mut rng, rem, 1),
+            },
+            6 | 7 => ROp::ScopeCtxt { s: any },
+            8 => ROp::ScopeRead { s: any, ty },
+            9..=12 => ROp::CtxtRead {
+                c: any,
+                ty,
+                generic: rng.pct(50),
+            },
+            13 | 14 => ROp::CtxtReadArray {
+                c: any,
+                ty,
+                len: gen_len(&mut rng, rem, ty.size()),
+            },
+            15 | 16 => {
+                let stride = match rng.below(8) {
+                    0 => 0,
+                    1 => ty.size().saturating_sub(1),
+                    2 | 3 => ty.size(),
+                    4 => ty.size() + 1,
+                    5 => usize::MAX,
+                    6 => 1usize << 32,
+                    _ => ty.size() + rng.usize_below(6),
+                };
+                ROp::CtxtReadArrayStride {
+                    c: any,
+                    ty,
+                    len: gen_len(&mut rng, rem, stride),
+                    stride,
+                }
+            }
+            17 => ROp::CtxtReadArrayUpto {
+                c: any,
+                ty,
+                len: gen_len(&mut rng, rem, ty.size()),
+            },
+            18 => {
+                let size = rng.usize_below(9);
+                ROp::CtxtReadArrayDep {
+                    c: any,
+                    size,
+                    len: gen_len(&mut rng, rem, size),
+                }
+            }
+            19 => ROp::CtxtReadScope {
+                c: any,
+                len: gen_len(&mut rng, rem, 1),
+            },
+            20 => ROp::CtxtReadSlice {
+                c: any,
+                len: gen_len(&mut rng, rem, 1),
+            },
+            21 => ROp::CtxtUntilNibble {
+                c: any,
+                nib: rng.below(16) as u8,
+            },
+            22 => ROp::CtxtScope { c: any },
+            23 => {
+                if rng.pct(50) {
+                    ROp::CtxtAvail { c: any }
+                } else {
+                    ROp::CtxtClone { c: any }
+                }
+            }
+            24 => ROp::ArrInfo { a: any },
+            25 | 26 => ROp::ArrItem {
+                a: any,
+                i: gen_len(&mut rng, rem, ty.size()),
+                via: rng.below(5) as u8,
+            },
+            27 | 28 => ROp::ArrAll {
+                a: any,
+                via: rng.below(7) as u8,
+            },
+            _ => ROp::ArrSearch {
+                a: any,
+                pick: any,
+                delta: *rng.pick(&[0i8, 0, 0, 1, -1, 100, -100]),
+            },
+        };
+        ops.push(op);
+    }
+    ReaderTrace {
+        version: 1,
+        property: "C14R".into(),
+        seed,
+        run,
+        buf,
+        cut,
+        exact,
+        ops,
+    }
+}
+
+// ------------------------------------------------------------------ entry points
+
+pub fn replay_value(v: serde_json::Value, verbose: bool) -> i32 {
+    let t: ReaderTrace = match serde_json::from_value(v) {
+        Ok(t) => t,
+        Err(e) => {
+            eprintln!("HARNESS-ERROR bad reader trace: {}", e);
+            return 2;
+        }
+    };
+    let mut cov = BTreeSet::new();
+    let (problems, digest) = run_program(&t, &mut cov, verbose);
+    let vs: Vec<serde_json::Value> = problems
+        .iter()
+        .map(|p| {
+            json!({"property":"C14","kind":"oracle","site":p.name,"msg":p.msg,"op_index":p.op_index,
+                   "op_kind":p.op_kind,"overflow_profile":p.msg.contains("overflow"),
+                   "signature":format!("C14|oracle|{}", p.name)})
+        })
+        .collect();
+    println!(
+        "{}",
+        json!({"digest":format!("{:016x}", digest),"violations":vs,"foreign":[],"harness_error":null})
+    );
+    if problems.is_empty() {
+        0
+    } else {
+        1
+    }
 }
 
 pub fn campaign(
-    _seed: u64,
-    _start: u64,
-    _count: u64,
-    _stride: u64,
-    _secs: f64,
-    _digests: bool,
-    _out: &mut Box<dyn Write>,
+    seed: u64,
+    start: u64,
+    count: u64,
+    stride: u64,
+    secs: f64,
+    digests: bool,
+    exact: bool,
+    out: &mut Box<dyn Write>,
 ) -> i32 {
-    2
+    let t0 = std::time::Instant::now();
+    let mut cov = BTreeSet::new();
+    let mut done = 0u64;
+    let mut k = 0u64;
+    let mut ops = 0u64;
+    let mut samples = Vec::new();
+    let mut violations = 0u64;
+    while k < count {
+        if done % 256 == 0 && t0.elapsed().as_secs_f64() > secs {
+            break;
+        }
+        let run = start + k * stride;
+        k += 1;
+        let t = generate(seed, run, exact);
+        let (problems, digest) = run_program(&t, &mut cov, false);
+        done += 1;
+        ops += t.ops.len() as u64;
+        if digests {
+            let _ = writeln!(out, "{}", json!({"type":"digest","run":run,"digest":format!("{:016x}", digest)}));
+        }
+        if samples.len() < 3 && t.ops.len() > 6 {
+            samples.push(serde_json::to_value(&t).unwrap());
+        }
+        for p in &problems {
+            violations += 1;
+            let _ = writeln!(
+                out,
+                "{}",
+                json!({"type":"violation","run":run,
+                       "violation":{"property":"C14","kind":"oracle","site":p.name,"msg":p.msg,"op_index":p.op_index,
+                                    "op_kind":p.op_kind,"overflow_profile":p.msg.contains("overflow"),
+                                    "signature":format!("C14|oracle|{}", p.name)},
+                       "trace":t})
+            );
+            let _ = out.flush();
+        }
+    }
+    let _ = writeln!(
+        out,
+        "{}",
+        json!({"type":"summary","prop":"C14R","seed":seed,"start":start,"stride":stride,"executed":done,
+               "next":start + k * stride,"wall_s":t0.elapsed().as_secs_f64(),
+               "stats":{"counters":{"runs":done,"reader_ops":ops,"violations":violations},"maxima":{},
+                        "sets":{"tuples":cov.iter().cloned().collect::<Vec<_>>()}},
+               "samples":samples})
+    );
+    let _ = out.flush();
+    0
 }
